@@ -30,14 +30,15 @@ import (
 // Oracle: afterwards every target file holds its complete old or complete new bytes.
 
 type c18Scenario struct {
-	Name    string
-	Files   map[string]string // old contents
-	Args    []string
-	Targets []string          // files that may be rewritten
-	Links   map[string]string // symbolic links created in the scratch directory: name -> target
-	Broken  string            // several files: the one that does not parse (all others must be rewritten whatever the number of CPUs)
-	New     map[string]string // expected new contents (target -> bytes); absent = must stay old
-	newVia  map[string]string // new contents as read through each link name
+	Name     string
+	Files    map[string]string // old contents
+	Args     []string
+	Targets  []string          // files that may be rewritten
+	Links    map[string]string // symbolic links created in the scratch directory: name -> target
+	MustFail bool              // the command fails before writing: no target may change, in the fault-free run either
+	Broken   string            // several files: the one that does not parse (all others must be rewritten whatever the number of CPUs)
+	New      map[string]string // expected new contents (target -> bytes); absent = must stay old
+	newVia   map[string]string // new contents as read through each link name
 }
 
 func c18Unformatted(n int) string {
@@ -444,6 +445,14 @@ func c18Scenarios(e *core.Env) []c18Scenario {
 			Args: []string{"format", "link.knut"}, Targets: []string{"real.knut"}},
 		{Name: "infer-inplace-through-symlink", Files: map[string]string{"train.knut": train, "real.knut": target + c18Unformatted(3000)}, Links: map[string]string{"link.knut": "real.knut"},
 			Args: []string{"infer", "-t", "train.knut", "--inplace", "link.knut"}, Targets: []string{"real.knut", "train.knut"}},
+		// the command fails before writing: the training data cannot be loaded (parse error in
+		// a file it includes / missing include / missing training file)
+		{Name: "infer-inplace-training-include-broken", Files: map[string]string{"train.knut": "include \"t2.knut\"\n" + train, "t2.knut": broken, "target.knut": target},
+			Args: []string{"infer", "-t", "train.knut", "--inplace", "target.knut"}, Targets: []string{"target.knut", "train.knut", "t2.knut"}, MustFail: true},
+		{Name: "infer-inplace-training-include-missing", Files: map[string]string{"train.knut": train + "include \"nope.knut\"\n", "target.knut": target},
+			Args: []string{"infer", "-t", "train.knut", "--inplace", "target.knut"}, Targets: []string{"target.knut", "train.knut"}, MustFail: true},
+		{Name: "infer-inplace-training-missing", Files: map[string]string{"target.knut": target},
+			Args: []string{"infer", "-t", "nope.knut", "--inplace", "target.knut"}, Targets: []string{"target.knut"}, MustFail: true},
 		{Name: "infer-inplace", Files: map[string]string{"train.knut": train, "target.knut": target}, Args: []string{"infer", "-t", "train.knut", "--inplace", "target.knut"}, Targets: []string{"target.knut", "train.knut"}},
 	}
 	_ = jr.Open
@@ -473,6 +482,15 @@ func c18Run(e *core.Env) {
 				e.Violation("C18:unparseable-file-rewritten", "a file that does not parse was modified by format", c18Case{sc.Name, "none"}, nil)
 			case sc.Name == "format-three-files-middle-broken" && (sc.New["a.knut"] == "" || sc.New["c.knut"] == "" || sc.New["b.knut"] != ""):
 				e.Violation("C18:failure-on-one-file-affects-others", fmt.Sprintf("a.knut rewritten=%v, b.knut rewritten=%v, c.knut rewritten=%v (want true,false,true)", sc.New["a.knut"] != "", sc.New["b.knut"] != "", sc.New["c.knut"] != ""), c18Case{sc.Name, "none"}, nil)
+			case sc.MustFail:
+				code, _ := c18RunFault(dir, &sc, nil)
+				if code == 0 || len(sc.New) != 0 {
+					var changed []string
+					for t := range sc.New {
+						changed = append(changed, t)
+					}
+					e.Violation("C18:file-modified-although-command-failed-before-writing", fmt.Sprintf("exit %d, rewritten: %v", code, changed), c18Case{sc.Name, "none"}, nil)
+				}
 			case sc.Broken != "":
 				// a failure on one file must not prevent the others, whatever the number of workers
 				for _, procs := range []string{"1", "2", "3", "16"} {
